@@ -29,6 +29,8 @@ SLIM = {'leaf_kinds': ['none', 'bool', 'int', 'float', 'str'], 'key_kinds': ['st
 MID = {'leaf_kinds': ['none', 'bool', 'int', 'float', 'special', 'str'], 'key_kinds': ['str', 'int', 'bool', 'none', 'float'],
        'specials': [-0.0, float('inf')], 'lits': ['true', '']}
 FULL = {}
+DICT2 = {'leaf_kinds': ['int', 'none'], 'key_kinds': ['str', 'int', 'bool'], 'specials': [], 'lits': ['true']}
+LIST2 = {'leaf_kinds': ['int', 'bool', 'float', 'str'], 'key_kinds': ['str'], 'specials': [], 'lits': ['true']}
 
 
 def families(tier):
@@ -38,13 +40,16 @@ def families(tier):
             {'name': 'single', 'params': {'depth': 2, 'width': 1, 'bad': True, 'shape': MID}, 'weight': 1},
             {'name': 'pair', 'params': {'depth': 0, 'width': 0, 'shape': FULL}, 'weight': 1},
             {'name': 'pair', 'params': {'depth': 1, 'width': 1, 'shape': MID}, 'weight': 3},
-            {'name': 'pair', 'params': {'depth': 1, 'width': 2, 'shape': SLIM, 'containers': ['dict']}, 'weight': 3},
+            {'name': 'pair', 'params': {'depth': 1, 'width': 2, 'shape': DICT2, 'containers': ['dict']}, 'weight': 3},
+            {'name': 'pair', 'params': {'depth': 1, 'width': 2, 'shape': LIST2, 'containers': ['list', 'tuple']}, 'weight': 3},
             {'name': 'triple', 'params': {'depth': 0, 'width': 0, 'shape': MID}, 'weight': 1},
+            {'name': 'triple', 'params': {'depth': 1, 'width': 1, 'shape': DICT2}, 'weight': 2},
         ]
     return [
         {'name': 'single', 'params': {'depth': 2, 'width': 2, 'bad': True, 'shape': MID}, 'weight': 2},
         {'name': 'single', 'params': {'depth': 1, 'width': 3, 'bad': True, 'shape': FULL}, 'weight': 1},
         {'name': 'pair', 'params': {'depth': 1, 'width': 2, 'shape': MID}, 'weight': 4},
+        {'name': 'pair', 'params': {'depth': 1, 'width': 2, 'shape': SLIM, 'containers': ['dict']}, 'weight': 4},
         {'name': 'pair', 'params': {'depth': 2, 'width': 1, 'shape': SLIM}, 'weight': 2},
         {'name': 'triple', 'params': {'depth': 1, 'width': 1, 'shape': SLIM}, 'weight': 3},
     ]
